@@ -1,8 +1,8 @@
 package sim
 
 import (
-	"encoding/binary"
 	"crypto/sha256"
+	"encoding/binary"
 )
 
 // Rng is a small deterministic PRNG (splitmix64). No wall clock, no global state.
